@@ -79,7 +79,7 @@ def mk_rng(kind, seed):
 
 
 RANDOM_STAGES = ('reshuffle', 'local2', 'local4', 'once', 'apply_reshuffle',
-                 'apply_local')
+                 'apply_local', 'choice_all', 'choice_part', 'choice_replace')
 PRE = ('none', 'map', 'slice', 'items', 'list')   # 'list': a source without keys
 POST = ('none', 'map', 'batch2', 'items', 'concat_plain', 'filter', 'batch_unbatch',
         'catch', 'copy', 'cache_after', 'tile2', 'concat_self')
@@ -107,6 +107,13 @@ def build(ld, prog, seed, rngkind):
         ds = ds.shuffle(True, rng=rng, buffer_size=4)
     elif stage == 'once':
         ds = ds.shuffle(False, rng=rng)
+    elif stage == 'choice_all':
+        # a seeded draw of ALL examples without replacement: a permutation
+        ds = ds.random_choice(len(ds), replace=False, rng_state=rng) if n else ds
+    elif stage == 'choice_part':
+        ds = ds.random_choice(max(n - 1, 0), False, rng) if n else ds
+    elif stage == 'choice_replace':
+        ds = ds.random_choice(n + 2, replace=True, rng_state=rng) if n else ds
     elif stage == 'apply_reshuffle':
         ds = ds.apply(lambda d, rng=rng: d.shuffle(True, rng=rng), lazy=True)
     elif stage == 'apply_local':
